@@ -108,7 +108,7 @@ def _w1(ctx, prop, floor):
 
 def _x9(ctx, files, fl_fns, fl_paths):
     from .rules import fill
-    r, nf, npaths = fill.rule_X9(ctx, files)
+    r, nf, npaths = fill.rule_X9(ctx, files, values=(range(-12, 48) if ctx.tier == 'thorough' else range(-3, 26)))
     r.floor('encoders with a fixed buffer', nf, fl_fns)
     r.floor('hand-overs checked (paths x parameter values)', npaths, fl_paths)
     return r
@@ -119,7 +119,7 @@ X10_DECODERS = [NSP_ + x for NSP_ in ('GeographicLib::',) for x in ('GARS::Rever
 
 def _x10(ctx):
     from .rules import decode
-    r, nf, npaths = decode.rule_X10(ctx, X10_DECODERS)
+    r, nf, npaths = decode.rule_X10(ctx, X10_DECODERS, maxlen=(48 if ctx.tier == 'thorough' else 26))
     r.floor('decoders', nf, 3)
     r.floor('outputs x accepting paths x lengths', npaths, 150)
     return r
@@ -182,7 +182,7 @@ def _lic(ctx, classes, rule, title, only_fns=None, floor=1):
 
 def _m8(ctx):
     from .rules import sibling
-    r, npairs, ncases = sibling.rule_M8(ctx)
+    r, npairs, ncases = sibling.rule_M8(ctx, exhaustive=(ctx.tier == 'thorough'))
     r.floor('factory pairs', npairs, 5)
     r.floor('cases', ncases, 200)
     return r
@@ -332,8 +332,8 @@ def _c19(ctx):
     dsp.floor('enumerator template arguments inside case regions', ncase, 20)
     dsp.floor('SphericalEngine::Value/Circle instantiations', ncalls, 20)
     i1, nflags, nreg = indep.rule_I1(ctx, C19_CLASSES)
-    i1.floor('request flags', nflags, 3)
-    i1.floor('guarded regions', nreg, 4)
+    i1.floor('request flags', nflags, 2)
+    i1.floor('guarded regions', nreg, 2)
     r6, n6 = exc.rule_X6(ctx, SCOPES['C19'])
     r6.floor('loops', n6, 40)
     return [dsp, i1] + _exc_rules(ctx, 'C19', with_lookup=False) + [r6]
